@@ -320,9 +320,12 @@ const (
 	c19DataPlain     = "plain.txt"
 	c19DataDir       = "data"
 	c19DataMissing   = "nonexistent.csv"
+	c19DataDeep      = "deep.csv" // a meta table whose Actions table lacks the columns the model reads (written into the child's cwd)
 )
 
-var c19DataClass = map[string]int{c19DataOk: 2, c19DataMalformed: 1, c19DataPlain: 0, c19DataDir: 0, c19DataMissing: 0, "": 0}
+const c19DeepMeta = "TableName, FilePath\nSubcatchments, data/ValidSubcatchments.csv\nGullies, data/ValidGullies.csv\nActions, data/InvalidActions.csv\n"
+
+var c19DataClass = map[string]int{c19DataOk: 2, c19DataMalformed: 0, c19DataDeep: 1, c19DataPlain: 0, c19DataDir: 0, c19DataMissing: 0, "": 0}
 
 type c19Gen struct {
 	p      *prng
@@ -388,7 +391,7 @@ func (g *c19Gen) base(fam, mod int) *c19Doc {
 			d.AnnealerParams = append(d.AnnealerParams, c19PS("DecisionVariable", fmt.Sprintf("Objective_%d", g.p.intn(3))))
 		case 1:
 			if g.p.chance(0.5) {
-				d.AnnealerParams = append(d.AnnealerParams, c19PS("DecisionVariable", []string{"ObjectiveValue", "AnythingGoes"}[g.p.intn(2)]))
+				d.AnnealerParams = append(d.AnnealerParams, c19PS("DecisionVariable", "ObjectiveValue"))
 			}
 		}
 		if g.p.chance(0.3) {
@@ -445,25 +448,30 @@ func c19Perturbations() []c19Pert {
 	set("RunNumber 3", runF, c19Int(3))
 	set("RunNumber string", runF, c19Wrong("\"2\""))
 	set("RunNumber float", runF, c19Wrong("1.5"))
-	add("RunNumber -1", "negative-run-number", func(g *c19Gen, d *c19Doc) bool { d.RunNumber = c19Int(-1); return true })
+	add("RunNumber -1", "", func(g *c19Gen, d *c19Doc) bool { d.RunNumber = c19Int(-1); return true })
 	conF := func(d *c19Doc) *c19Field { return &d.MaxConcurrent }
 	set("MaximumConcurrentRunNumber 0", conF, c19Int(0))
 	set("MaximumConcurrentRunNumber 1", conF, c19Int(1))
 	set("MaximumConcurrentRunNumber 2", conF, c19Int(2))
 	set("MaximumConcurrentRunNumber bool", conF, c19Wrong("true"))
-	add("MaximumConcurrentRunNumber -1", "negative-concurrent-run-number", func(g *c19Gen, d *c19Doc) bool { d.MaxConcurrent = c19Int(-1); return true })
+	add("MaximumConcurrentRunNumber -1", "", func(g *c19Gen, d *c19Doc) bool { d.MaxConcurrent = c19Int(-1); return true })
 	outF := func(d *c19Doc) *c19Field { return &d.OutputPath }
 	set("OutputPath absent", outF, c19Absent())
 	set("OutputPath nested", outF, c19Str("out/sub/dir"))
 	set("OutputPath int", outF, c19Wrong("7"))
-	add("OutputPath is a file", "output-path-not-a-directory", func(g *c19Gen, d *c19Doc) bool { d.OutputPath = c19Str("notadir"); return true })
+	add("OutputPath is a file", "", func(g *c19Gen, d *c19Doc) bool { d.OutputPath = c19Str("notadir"); return true })
+	add("OutputPath below a file", "", func(g *c19Gen, d *c19Doc) bool { d.OutputPath = c19Str("notadir/sub"); return true })
+	add("OutputPath cannot be created", "output-directory-cannot-be-created", func(g *c19Gen, d *c19Doc) bool {
+		d.OutputPath = c19Str("/proc/verif-c19-no-such-directory/out") // does not exist (nothing to object to) and mkdir fails there: nothing is written
+		return true
+	})
 	otF := func(d *c19Doc) *c19Field { return &d.OutputType }
 	set("OutputType CSV", otF, c19Str("CSV"))
 	set("OutputType JSON", otF, c19Str("JSON"))
 	set("OutputType XML", otF, c19Str("XML"))
 	set("OutputType lower case", otF, c19Str("csv"))
 	set("OutputType int", otF, c19Wrong("3"))
-	add("OutputType EXCEL", "excel-output-without-excel", func(g *c19Gen, d *c19Doc) bool { d.OutputType = c19Str("EXCEL"); return true })
+	add("OutputType EXCEL", "", func(g *c19Gen, d *c19Doc) bool { d.OutputType = c19Str("EXCEL"); return true })
 	olF := func(d *c19Doc) *c19Field { return &d.OutputLevel }
 	set("OutputLevel Summary", olF, c19Str("Summary"))
 	set("OutputLevel Detail", olF, c19Str("Detail"))
@@ -472,7 +480,7 @@ func c19Perturbations() []c19Pert {
 	set("CpuProfilePath good", cpF, c19Str("prof.pprof"))
 	set("CpuProfilePath empty", cpF, c19Str(""))
 	set("CpuProfilePath int", cpF, c19Wrong("1"))
-	add("CpuProfilePath uncreatable", "cpu-profile-path-uncreatable", func(g *c19Gen, d *c19Doc) bool { d.CpuProfile = c19Str("missing/prof.pprof"); return true })
+	add("CpuProfilePath uncreatable", "", func(g *c19Gen, d *c19Doc) bool { d.CpuProfile = c19Str("missing/prof.pprof"); return true })
 	reF := func(d *c19Doc) *c19Field { return &d.ReportEvery }
 	set("ReportEvery 0", reF, c19Int(0))
 	set("ReportEvery 1", reF, c19Int(1))
@@ -514,7 +522,7 @@ func c19Perturbations() []c19Pert {
 	add("Model.Type absent", "", func(g *c19Gen, d *c19Doc) bool { d.ModelType = c19Absent(); return true })
 	set("Model.Type Bogus", mtF, c19Str("Bogus"))
 	set("Model.Type int", mtF, c19Wrong("4"))
-	add("Model.Type NullModel", "null-model", func(g *c19Gen, d *c19Doc) bool {
+	add("Model.Type NullModel", "", func(g *c19Gen, d *c19Doc) bool {
 		d.ModelType, d.ModelParams = c19Str("NullModel"), nil
 		d.AnnealerParams = c19DelParam(d.AnnealerParams, "DecisionVariable")
 		return true
@@ -547,9 +555,6 @@ func c19Perturbations() []c19Pert {
 	ap("annealer unknown parameter", c19PI("Bogus", 1))
 	ap("ExplorableDecisionVariables", c19PS("ExplorableDecisionVariables", "SedimentProduced,ImplementationCost"))
 	add("Annealer.Parameters scalar", "", func(g *c19Gen, d *c19Doc) bool {
-		if c19IsKirkpatrick(d) && !(func() bool { s, _ := d.ModelType.str(); return s == "DumbModel" })() {
-			return false // would drop the DecisionVariable: that is the hazard below
-		}
 		d.AnnealerParamsScalar = true
 		return true
 	})
@@ -560,10 +565,14 @@ func c19Perturbations() []c19Pert {
 		d.AnnealerParams = c19SetParam(d.AnnealerParams, c19PI("DecisionVariable", 3))
 		return true
 	})
-	add("DecisionVariable not offered", "decision-variable-not-offered", func(g *c19Gen, d *c19Doc) bool {
+	add("DecisionVariable not offered", "", func(g *c19Gen, d *c19Doc) bool {
 		s, _ := d.ModelType.str()
-		if !c19IsKirkpatrick(d) || s == "DumbModel" {
+		if !c19IsKirkpatrick(d) {
 			return false
+		}
+		if s == "DumbModel" {
+			d.AnnealerParams = c19SetParam(d.AnnealerParams, c19PS("DecisionVariable", "AnythingGoes"))
+			return true
 		}
 		if g.p.chance(0.5) {
 			d.AnnealerParams = c19DelParam(d.AnnealerParams, "DecisionVariable") // the default "ObjectiveValue"
@@ -613,10 +622,11 @@ func c19Perturbations() []c19Pert {
 			return true
 		})
 	}
-	hz("DataSourcePath absent", "data-source-absent", "")
-	hz("DataSourcePath plain file", "data-source-not-a-data-set", c19DataPlain)
-	hz("DataSourcePath directory", "data-source-not-a-data-set", c19DataDir)
-	hz("DataSourcePath malformed data set", "data-source-malformed", c19DataMalformed)
+	hz("DataSourcePath absent", "", "")
+	hz("DataSourcePath plain file", "", c19DataPlain)
+	hz("DataSourcePath directory", "", c19DataDir)
+	hz("DataSourcePath data set without its tables", "", c19DataMalformed)
+	hz("DataSourcePath data set without its columns", "", c19DataDeep)
 	add("two limits", "", func(g *c19Gen, d *c19Doc) bool {
 		if !c19IsCatchment(d) {
 			return false
@@ -652,7 +662,7 @@ func c19Perturbations() []c19Pert {
 		}
 		lim("0", "", func(g *c19Gen) float64 { return 0 })
 		lim("mid-range", "", func(g *c19Gen) float64 { return g.mid[k] })
-		lim("above everything", "limit-not-binding", func(g *c19Gen) float64 { return g.far[k] })
+		lim("above everything", "", func(g *c19Gen) float64 { return g.far[k] })
 	}
 	// the document as a whole
 	add("unknown key Scenario.Bogus", "", func(g *c19Gen, d *c19Doc) bool { d.Unknown = c19AddOnce(d.Unknown, "Scenario.Bogus"); return true })
@@ -705,6 +715,7 @@ func c19Tags(code int, text string) []string {
 		}
 	} else {
 		section := ""
+		trialFailed := false
 		for _, ln := range strings.Split(text, "\n") {
 			switch {
 			case strings.Contains(ln, "building model ["):
@@ -722,7 +733,7 @@ func c19Tags(code int, text string) []string {
 			}
 			if strings.Contains(ln, "Only one of") {
 				set["EModelLimits"] = true
-			} else if section != "" {
+			} else if section == "EModelParam" || section == "EAnnealerParam" {
 				for _, m := range c19reParam.FindAllStringSubmatch(ln, -1) {
 					set[section+":"+m[1]] = true
 				}
@@ -733,12 +744,34 @@ func c19Tags(code int, text string) []string {
 			if strings.Contains(ln, "not recognised by model") {
 				set["EAnnealerParam:DecisionVariable"] = true
 			}
+			if strings.Contains(ln, "is not offered by the configured model") {
+				set["EDecisionVariable"] = true
+			}
+			if strings.Contains(ln, "initialising model [") {
+				section = "trial"
+				trialFailed = true
+			}
+			if strings.Contains(ln, "satisfied by every combination of management actions") {
+				set["ELimitNotBinding"] = true
+			}
+			if strings.Contains(ln, "Scenario.OutputPath [") {
+				set["EOutputPath"] = true
+			}
+			if strings.Contains(ln, "needs Excel") {
+				set["EExcel"] = true
+			}
+			if strings.Contains(ln, "the directory of Scenario.CpuProfilePath") {
+				set["EProfilePath"] = true
+			}
 			for _, m := range c19reLevel.FindAllStringSubmatch(ln, -1) {
 				set["ELogDestination:"+m[1]] = true
 			}
 			if strings.Contains(ln, "Missing mandatory scenario name") {
 				set["EScenarioName"] = true
 			}
+		}
+		if trialFailed && !set["ELimitNotBinding"] {
+			set["EModelData"] = true
 		}
 	}
 	res := []string{}
@@ -751,6 +784,9 @@ func c19Tags(code int, text string) []string {
 
 func c19OutDir(d *c19Doc, cwd string) string {
 	if s, ok := d.OutputPath.str(); ok {
+		if filepath.IsAbs(s) {
+			return s
+		}
 		return filepath.Join(cwd, s)
 	}
 	return cwd // default "."
@@ -767,6 +803,7 @@ func c19RunOnce(root string, d *c19Doc, k int, text string) c19Exec {
 	}
 	os.WriteFile(filepath.Join(cwd, c19DataPlain), []byte("not a data set\n"), 0o644)
 	os.WriteFile(filepath.Join(cwd, "notadir"), []byte("a file\n"), 0o644)
+	os.WriteFile(filepath.Join(cwd, c19DataDeep), []byte(c19DeepMeta), 0o644)
 	tomlPath := filepath.Join(cwd, "scenario.toml")
 	os.WriteFile(tomlPath, []byte(text), 0o644)
 	outDir := c19OutDir(d, cwd)
@@ -1005,6 +1042,7 @@ func runC19(args []string) {
 					os.MkdirAll(cwd, 0o755)
 					os.Symlink(filepath.Join(catchRepoRoot(), "internal/pkg/model/models/catchment/testdata"), filepath.Join(cwd, "data"))
 					os.WriteFile(filepath.Join(cwd, c19DataPlain), []byte("x"), 0o644)
+					os.WriteFile(filepath.Join(cwd, c19DataDeep), []byte(c19DeepMeta), 0o644)
 					if f, err := os.OpenFile(filepath.Join(cwd, s), os.O_RDONLY, 0o666); err == nil {
 						f.Close()
 						readable = append(readable, s)
@@ -1013,16 +1051,20 @@ func runC19(args []string) {
 				}
 			}
 		}
-		outUsable := true
-		if s, ok := d.OutputPath.str(); ok && s == "notadir" {
-			outUsable = false
+		outIsFile := false // os.Stat: an existing non-directory, or an error other than "does not exist"
+		if s, ok := d.OutputPath.str(); ok && strings.HasPrefix(s, "notadir") {
+			outIsFile = true
 		}
-		profOk := true
+		outCreatable := true
+		if s, ok := d.OutputPath.str(); ok && strings.HasPrefix(s, "/proc/") {
+			outCreatable = false
+		}
+		profDirOk := true
 		if s, ok := d.CpuProfile.str(); ok && strings.HasPrefix(s, "missing/") {
-			profOk = false
+			profDirOk = false
 		}
 		emit(J{"kind": "case", "id": d.Id, "note": d.Note, "hazard": d.Hazard, "toml": r.text, "config": d.abstract(),
-			"readable": readable, "data": data, "out_usable": outUsable, "profile_ok": profOk,
+			"readable": readable, "data": data, "out_is_file": outIsFile, "out_creatable": outCreatable, "profile_dir_ok": profDirOk,
 			"outcomes": codeList, "errs": tags, "summaries": files})
 		// ---- the property itself, evaluated on what the real code did
 		for _, x := range r.execs {
